@@ -12,11 +12,12 @@ class OutOfSubset(Exception):
 
 
 class Val:
-    __slots__ = ('t', 'ty')
+    __slots__ = ('t', 'ty', 'elems')
 
-    def __init__(self, t, ty=None):
+    def __init__(self, t, ty=None, elems=None):
         self.t = t
         self.ty = ty
+        self.elems = elems      # Python-side list of element Vals for tuple/list displays (used by isinst_any)
 
     def __repr__(self):
         return 'Val(%s:%s)' % (self.t, self.ty)
@@ -274,12 +275,38 @@ class Exec:
             return None
         return ty
 
+    def declaring_classes(self, cls, field):
+        """library subclasses of cls (ClassInfo) whose declared fields (REG.fields) include `field`"""
+        out = []
+        for c in self.repo.subclasses(cls):
+            for k in c.mro:
+                if isinstance(k, ClassInfo) and field in REG.fields.get(k.qual, {}):
+                    out.append((c, REG.fields[k.qual][field]))
+                    break
+        return out
+
     def get_field(self, st, recv, field, node=None):
         arr = self.harr(st, 'f:' + field)
         t = z3.Select(arr, rv(recv.t))
         fty = self.field_type(recv.ty, field) if recv.ty else None
-        if fty is None and recv.ty and isinstance(recv.ty, str) and recv.ty.startswith('obj:'):
-            fty = None
+        cls = self.recv_class(recv) if recv.ty else None
+        if fty is None and cls is not None and REG.fields.get(cls.qual) is not None or (fty is None and cls is not None and self.declaring_classes(cls, field)):
+            # the static class does not declare the field: present only on some subclasses (AttributeError otherwise)
+            decl = self.declaring_classes(cls, field)
+            if decl:
+                ids = sorted({self.w.class_id(c.qual) for c, _ in decl})
+                has = z3.Or(*[typ(rv(recv.t)) == i for i in ids])
+                if not self.spec_mode:
+                    self.raise_if(st, z3.Not(has), 'AttributeError', 'safe/attr-' + field, node)
+                bytype = {}
+                for c, ty in decl:
+                    bytype.setdefault(ty, []).append(self.w.class_id(c.qual))
+                for ty, cids in bytype.items():
+                    st.assume(z3.Implies(z3.Or(*[typ(rv(recv.t)) == i for i in cids]), self.type_pred(ty, t, st)))
+                if len(bytype) == 1:
+                    fty = list(bytype)[0]
+                    self.assume_allocated(st, t)
+                    return Val(t, self.static_ty(fty))
         if fty is not None:
             st.assume(self.type_pred(fty, t, st))
         self.assume_allocated(st, t)
@@ -521,6 +548,10 @@ class Exec:
             if isinstance(g, ClassInfo):
                 return self.class_attr(g, e.attr, st, e)
         recv = self.ev(e.value, st)
+        if e.attr == '__class__' and self.recv_class(recv) is not None:
+            return Val(mk_r(self.w.static('dynclass:' + self.recv_class(recv).qual)), ('dynclass', self.recv_class(recv)))
+        if isinstance(recv.ty, tuple) and recv.ty[0] == 'dynclass':
+            return self.class_attr(recv.ty[1], e.attr, st, e)
         if recv.ty == 'symclass':
             if e.attr == '__dict__':
                 return Val(recv.t, ('classdict',))
@@ -579,6 +610,12 @@ class Exec:
         if mark in st.env:
             return
         st.env[mark] = ref
+        mutable_registry = key.rsplit('.', 1)[-1] in ('yaml_constructors', 'yaml_multi_constructors', 'yaml_representers', 'yaml_multi_representers',
+                                                      'yaml_implicit_resolvers', 'yaml_path_resolvers')
+        if mutable_registry:
+            # registries are filled by add_* after the class body: contents unknown, only "a dict"
+            st.assume(typ(rv(ref.t)) == 2)
+            return
         if isinstance(lit, dict) and all(isinstance(k, (str, int)) and isinstance(v, (str, int, bool, type(None))) for k, v in lit.items()):
             has = z3.Select(self.harr(st, '$dhas'), rv(ref.t))
             val = z3.Select(self.harr(st, '$dval'), rv(ref.t))
@@ -858,7 +895,9 @@ class Exec:
 
     def e_Tuple(self, e, st):
         vals = [self.ev(x, st) for x in e.elts]
-        return self.new_list(st, self.seq_lit(vals), 'tuple')
+        r = self.new_list(st, self.seq_lit(vals), 'tuple')
+        r.elems = vals
+        return r
 
     def e_Dict(self, e, st):
         d = self.new_dict(st)
@@ -891,7 +930,32 @@ class Exec:
         idx = self.ev(e.slice, st)
         return self.getitem(base, idx, st, e)
 
+    def loop_ordinal_of(self, node):
+        """ordinal of a loop (while / for / list comprehension) in source order within the function"""
+        if not hasattr(self, '_loop_ids'):
+            ids = {}
+
+            def visit(n):
+                if isinstance(n, (ast.While, ast.For, ast.ListComp)):
+                    ids[id(n)] = len(ids)
+                for c in ast.iter_child_nodes(n):
+                    visit(c)
+            visit(self.f.node)
+            self._loop_ids = ids
+        k = self._loop_ids.get(id(node))
+        if k is None:
+            k = self._loop_ids.get(id(getattr(node, '_comp_of', None)))
+        if k is None:
+            raise OutOfSubset('loop outside the function body')
+        return k
+
+    def entry_alloc(self):
+        return z3.Int('alloc0')
+
     def getitem(self, base, idx, st, e):
+        if base.ty == 'seq':
+            t = base.t[iv(idx.t)]
+            return Val(t, None)
         if self.is_strlike(base) or base.ty == 'bytes':
             self.need_type(st, idx, is_i, 'index', e)
             s_ = sv(base.t) if base.ty != 'bytes' else yv(base.t)
@@ -973,7 +1037,40 @@ class Exec:
         raise OutOfSubset('slice of %s' % base.ty)
 
     def e_ListComp(self, e, st):
-        raise OutOfSubset('list comprehension (line %d)' % e.lineno)
+        """[elt for x in xs (if c)] is executed as  $comp = []; for x in xs: (if c:) $comp.append(elt)  -- a loop like any other
+        (its invariants are keyed by its loop ordinal; the accumulator is visible to them as `comp`)"""
+        if self.spec_mode or len(e.generators) != 1 or e.generators[0].is_async:
+            raise OutOfSubset('list comprehension (line %d)' % e.lineno)
+        from .stmts import Runner
+        g = e.generators[0]
+        ln = dict(lineno=e.lineno, col_offset=e.col_offset)
+        acc = 'comp'
+        if acc in st.env:
+            raise OutOfSubset('nested comprehension accumulators')
+        st.env[acc] = self.new_list(st, z3.Empty(SeqV), 'list')
+        body = ast.Expr(ast.Call(ast.Attribute(ast.Name(acc, ast.Load(), **ln), 'append', ast.Load(), **ln), [e.elt], [], **ln), **ln)
+        for c in reversed(g.ifs):
+            body = ast.If(c, [body], [], **ln)
+        loop = ast.For(g.target, g.iter, [body], [], **ln)
+        loop._comp_of = e
+        outs = Runner(self).s_For(loop, st)
+        nxt = [o for o in outs if o.kind == 'next']
+        for o in outs:
+            if o.kind == 'raise':
+                self.pending.append(o)
+            elif o.kind != 'next':
+                raise OutOfSubset('control flow out of a comprehension')
+        if not nxt:
+            st.assume(z3.BoolVal(False))
+            return Val(fresh_v('comp'), 'list')
+        r = nxt[0].st
+        st.pc, st.heap, st.env, st.alloc, st.unbound = r.pc, r.heap, dict(r.env), r.alloc, r.unbound
+        res = st.env.pop(acc)
+        # the comprehension variable is local to the comprehension
+        for n in ast.walk(g.target):
+            if isinstance(n, ast.Name):
+                st.env.pop(n.id, None)
+        return Val(res.t, 'list')
 
     def e_JoinedStr(self, e, st):
         raise OutOfSubset('f-string')
@@ -1036,17 +1133,60 @@ _spec_cache = {}
 def parse_spec(text):
     if text in _spec_cache:
         return _spec_cache[text]
-    src = text.strip()
-    # a ==> b  (right associative, lowest precedence) is rewritten to implies(a, b)
-    parts = split_top(src, '==>')
-    if len(parts) > 1:
-        expr = parts[-1]
-        for p in reversed(parts[:-1]):
-            expr = 'implies((%s), (%s))' % (p, expr)
-        src = expr
+    src = rewrite_implies(text.strip())
     tree = ast.parse(src, mode='eval').body
     _spec_cache[text] = tree
     return tree
+
+
+def rewrite_implies(src):
+    """a ==> b (right associative, lowest precedence inside its bracket group / argument) becomes implies((a), (b))"""
+    if '==>' not in src:
+        return src
+    # rewrite inside bracket groups first
+    out, i, n = '', 0, len(src)
+    instr = None
+    while i < n:
+        ch = src[i]
+        if instr:
+            out += ch
+            if ch == '\\':
+                out += src[i + 1]; i += 1
+            elif ch == instr:
+                instr = None
+        elif ch in '\'"':
+            instr = ch; out += ch
+        elif ch in '([{':
+            # find the matching close
+            depth, j, ins = 1, i + 1, None
+            while j < n and depth:
+                c = src[j]
+                if ins:
+                    if c == '\\':
+                        j += 1
+                    elif c == ins:
+                        ins = None
+                elif c in '\'"':
+                    ins = c
+                elif c in '([{':
+                    depth += 1
+                elif c in ')]}':
+                    depth -= 1
+                j += 1
+            inner = src[i + 1:j - 1]
+            pieces = split_top(inner, ',')
+            out += ch + ','.join(rewrite_implies(p) for p in pieces) + src[j - 1]
+            i = j - 1
+        else:
+            out += ch
+        i += 1
+    parts = split_top(out, '==>')
+    if len(parts) > 1:
+        expr = parts[-1].strip()
+        for p in reversed(parts[:-1]):
+            expr = 'implies((%s), (%s))' % (p.strip(), expr)
+        out = expr
+    return out
 
 
 def split_top(s, sep):
